@@ -10,6 +10,7 @@ from ..core import Checker
 from ..effects import destructive_kind, fs_like
 from ..loader import AnalysisError, Func, norm, walk_expr, walk_own
 from ..prov import is_accumulator, ends_with_attrs, attr_chain, call_name, expand, get_arg, scope_of, is_marker, ELEM, ITEM, CTX
+from .generic_lints import run_all as _lints
 
 
 def _is_root(ck: Checker, fn: Func) -> bool:
@@ -88,6 +89,7 @@ def removal_guard_justified(ck: Checker, fn: Func, public: Func, _depth=None):
 
 def check(ck: Checker) -> None:
     prog, res = ck.prog, ck.res
+    _lints(ck, "C05.aliasing", "hashfile.state", "hashfile.checkout")
     ck.decided = [
         "C05.owner: every filesystem-destructive call reachable from hashfile.checkout.checkout inside its module is enumerated",
         "C05.guard: each such call is unreachable once the edges {force true, OLD entry in_cache true, prompt(msg) true} are cut (operands traced to checkout()'s parameters / <change>.old.in_cache through all call sites)",
